@@ -300,6 +300,35 @@ impl QuadVal {
             QuadVal::Rs512(x) => Box::new(x.into_iter()),
         }
     }
+    pub fn check_iter_adapters(&self, m: &QuadModel, seed: u64, ctx: &mut Ctx) -> CheckResult {
+        use crate::iteradapt::check_adapters as ca;
+        let who = self.kind().name();
+        let small = m.n() <= 20_000;
+        match self {
+            QuadVal::Qv(x) => {
+                ca(|| x.iter(), &m.q, seed, &format!("{who} iter()"), ctx)?;
+                ca(|| <&QVector as IntoIterator>::into_iter(x), &m.q, seed ^ 1, &format!("{who} (&v).into_iter()"), ctx)?;
+                if small {
+                    ca(|| x.clone().into_iter(), &m.q, seed ^ 2, &format!("{who} into_iter()"), ctx)?;
+                }
+            }
+            QuadVal::Rs256(x) => {
+                ca(|| x.iter(), &m.q, seed, &format!("{who} iter()"), ctx)?;
+                ca(|| <&RSQVector256 as IntoIterator>::into_iter(x), &m.q, seed ^ 1, &format!("{who} (&v).into_iter()"), ctx)?;
+                if small {
+                    ca(|| x.clone().into_iter(), &m.q, seed ^ 2, &format!("{who} into_iter()"), ctx)?;
+                }
+            }
+            QuadVal::Rs512(x) => {
+                ca(|| x.iter(), &m.q, seed, &format!("{who} iter()"), ctx)?;
+                ca(|| <&RSQVector512 as IntoIterator>::into_iter(x), &m.q, seed ^ 1, &format!("{who} (&v).into_iter()"), ctx)?;
+                if small {
+                    ca(|| x.clone().into_iter(), &m.q, seed ^ 2, &format!("{who} into_iter()"), ctx)?;
+                }
+            }
+        }
+        Ok(())
+    }
     pub fn ser(&self) -> Result<Vec<u8>, String> {
         let r = match self {
             QuadVal::Qv(x) => bincode::serialize(x),
@@ -650,7 +679,7 @@ pub fn check_quads(v: &QuadVal, m: &QuadModel, plan_seed: u64, o: QuadOpts, ctx:
             }
         }
         if n <= 60_000 {
-            crate::props::c12::check_adapters(&|| v.iter(), &m.q, plan_seed ^ 5, &format!("{who} iter()"), ctx)?;
+            v.check_iter_adapters(m, plan_seed ^ 5, ctx)?;
         }
     }
     let _ = unreachable_fail;
